@@ -176,9 +176,6 @@ var checkLinTicks = ev.Register("linear-ticks", func(c *LinCase) ev.Outcome {
 		if sp == 0 || math.IsInf(sp, 0) {
 			continue
 		}
-		if w/sp > 1e6 {
-			continue // far too fine to fit; CountTicks would not even fit an int
-		}
 		if fwd.CountTicks(l) <= c.OMax {
 			found, lvl = true, l
 			break
@@ -216,6 +213,20 @@ var checkLinTicks = ev.Register("linear-ticks", func(c *LinCase) ev.Outcome {
 		if !in {
 			return ev.Fail("major tick %v is not among the minor ticks %v", x, minor)
 		}
+	}
+	// CountTicks is non-increasing (and never negative) over every level, however fine or
+	// coarse - also where the count exceeds any int or the spacing under/overflows
+	prevWide := math.MaxInt64
+	for l := -700; l <= nat+80; l++ {
+		// (up to spacings some 1e40 domain widths: beyond, bound/spacing itself underflows)
+		if math.IsInf(linSpacing(c.Base, l), 0) {
+			break // a spacing beyond float64 is not a level of this scale
+		}
+		cnt := fwd.CountTicks(l)
+		if cnt < 0 || cnt > prevWide {
+			return ev.Fail("CountTicks(%d) = %d after %d at the level below: not non-increasing / negative", l, cnt, prevWide)
+		}
+		prevWide = cnt
 	}
 	// CountTicks / TicksAtLevel against the definition around the chosen level, and monotone
 	prev := math.MaxInt64
@@ -542,6 +553,10 @@ func drawOptions(t *rapid.T, log bool) (omax, minL, maxL int) {
 			maxL = minL + rapid.IntRange(0, 5).Draw(t, "levelspan")
 		} else {
 			minL = rapid.IntRange(-10, 9).Draw(t, "minlevel")
+			if rapid.IntRange(0, 3).Draw(t, "deepLevels") == 0 {
+				// limits far finer than the domain: counts beyond any int, nothing fits
+				minL = rapid.IntRange(-60, -10).Draw(t, "deepMin")
+			}
 			maxL = minL + rapid.IntRange(0, 9).Draw(t, "levelspan")
 		}
 	}
